@@ -63,13 +63,16 @@ package etype
 //@   pure
 //@   trusted_frame interface frame; implementations delegate to the family functions
 //@   requires len(usage) > 0
+//@   ensures err == nil ==> bytes(k) == et_dk(tagof(e), bytes(protocolKey), bytes(usage))
 //@ func (crypto/etype.EType).DeriveRandom(e, protocolKey, usage) (k, err)
 //@   pure
 //@   trusted_frame interface frame; implementations delegate to the family functions
 //@   requires len(usage) > 0
 //@   ensures err == nil && tagof(e) == typeid("crypto.Des3CbcSha1Kd") ==> len(k) == 21
+//@   ensures err == nil && (tagof(e) == typeid("crypto.Des3CbcSha1Kd") || tagof(e) == typeid("crypto.Aes128CtsHmacSha96") || tagof(e) == typeid("crypto.Aes256CtsHmacSha96")) ==> bytes(k) == et_dr(tagof(e), bytes(protocolKey), bytes(usage))
 //@ func (crypto/etype.EType).RandomToKey(e, b) (k)
 //@   pure
+//@   ensures et_known(tagof(e)) ==> bytes(k) == et_r2k(tagof(e), bytes(b))
 //@   trusted_frame interface frame; implementations delegate to the family functions
 //@   requires tagof(e) == typeid("crypto.Des3CbcSha1Kd") ==> len(b) >= 21
 //@ func (crypto/etype.EType).VerifyIntegrity(e, protocolKey, ct, pt, usage) (ok)
@@ -82,6 +85,7 @@ package etype
 //@   ensures err == nil ==> bytes(h) == et_cksum(tagof(e), bytes(protocolKey), usage, bytes(data))
 //@ func (crypto/etype.EType).VerifyChecksum(e, protocolKey, data, chksum, usage) (ok)
 //@   pure
+//@   ensures ok ==> bytes(chksum) == et_cksum(tagof(e), bytes(protocolKey), usage, bytes(data))
 //@   trusted_frame interface frame; implementations delegate to the family functions
 //@ func (crypto/etype.EType).DecryptMessage(e, key, ciphertext, usage) (pt, err)
 //@   pure
